@@ -66,6 +66,14 @@ Clauses(o) ==
               THEN {} ELSE {"changeType"})
       ELSE {})
   \cup
+     \* ---- C11: issuers are GENERATED before the entities they sign: the artifacts are written in the order of the plan
+     \*      (in-process runs log every WriteFile; a run that stops early has written a prefix)
+     (IF IsRun(o) /\ "written" \in DOMAIN o.obs /\ o.obs.result \notin {"panic", "refused"}
+      THEN IF Len(o.obs.written) <= Len(o.act.plan) /\ o.obs.written = SubSeq(o.act.plan, 1, Len(o.obs.written))
+              /\ (o.obs.result = "ok" /\ o.act.outcome = "ok" => Len(o.obs.written) = Len(o.act.plan))
+           THEN {} ELSE {"writeOrder"}
+      ELSE {})
+  \cup
      \* ---- the transition itself
      (IF o.obs.result = "panic" \/ ~TypeOK(pre) \/ ~TypeOK(post) THEN {}
       \* Open refuses a directory exactly when a configuration names an issuer nobody defines (the bounded model has
